@@ -20,6 +20,6 @@ func NewBufferPoolForVerif(size, max uint64) *BufferPoolForVerif {
 	return &BufferPoolForVerif{newBufferPool(size, max)}
 }
 func (p *BufferPoolForVerif) Wait() *BufferForVerif { return &BufferForVerif{p.p.Wait()} }
-func (b *BufferForVerif) Done()                    { b.b.Done() }
-func (b *BufferForVerif) Len() int                 { return len(b.b.Data) }
-func (p *BufferPoolForVerif) Allocated() int64     { return p.p.count }
+func (b *BufferForVerif) Done()                     { b.b.Done() }
+func (b *BufferForVerif) Len() int                  { return len(b.b.Data) }
+func (p *BufferPoolForVerif) Allocated() int64      { return p.p.count }
